@@ -138,6 +138,9 @@ impl World {
                 self.sent.insert(*n);
             }
         }
+        // (a request that died half-way returns no RPC log: what it had asked of the node is still in the node's own log)
+        let rest = self.live.sys.node.take_log();
+        self.note_sends(&rest);
         if let Outcome::Panicked(_) = out {
             if crashing {
                 // the executor printed `abort`: the model prints `crashed`
@@ -529,7 +532,7 @@ pub fn run(seed: u64, thorough: bool, rep: &mut Report) {
                     let in_chain: BTreeSet<u32> = w.live.sys.chain.iter().flat_map(|b| b.3.iter().cloned()).collect();
                     for (k, tr) in after.trackers.iter() {
                         if !w.sent.contains(&tr.1) && !in_chain.contains(&tr.1) {
-                            rep.fail("C02", "responded_before_the_node_was_given_the_penalty", &format!("after the crash in op {i} ({op:?}) point {j} tracker {k:?} is in the database although penalty t{} was never handed to the node and is not in the chain", tr.1 * 16));
+                            rep.fail("C02", "responded_before_the_node_was_given_the_penalty", &format!("after the crash in op {i} ({op:?}) point {j} tracker {k:?} is in the database although penalty t{} was never handed to the node and is not in the chain (handed to the node so far: {:?})", tr.1 * 16, w.sent));
                         }
                     }
                 }
